@@ -13,6 +13,8 @@ namespace photospline{
 
 double bspline(const double* knots, double x, int i, int n);
 double bspline_deriv(const double* knots, double x, int i, int n, unsigned order);
+/* The derivative of the basis spline that is continuous from the left */
+double bspline_deriv_left(const double* knots, double x, int i, int n, unsigned order);
 
 /*
  * A brain-dead reimplementation of de Boor's BSPLVB, which generates
